@@ -363,7 +363,9 @@ prop("C01",
      harnesses=[
          H("c01_web_free_4_3", CL, features=("android-asset-validation",), bounds="web origin: host <= 4 bytes (non-empty labels) or absent, RP ID <= 3 bytes or absent, alphabet {a,b,c,.}, https/http, localhost flag; custom provider with rules {c, b.c}"),
          H("c01_web_free_5_3", CL, features=("android-asset-validation",), bounds="host <= 5, RP ID <= 3"),
+         H("c01_web_free_6_3", CL, features=("android-asset-validation",), timeout=(600, 3600), bounds="host <= 6, RP ID <= 3"),
          H("c01_web_free_6_4", CL, features=("android-asset-validation",), tier="thorough", bounds="host <= 6, RP ID <= 4"),
+         H("c01_localhost_lookalike", CL, features=("android-asset-validation",), bounds="hosts '<x>localhost' and '<x>.localhost' for every letter x, insecure localhost enabled, https/http"),
          H("c01_web_twin", CL, features=("android-asset-validation",), twin=True, bounds="host <= 4"),
          H("c01_localhost_gate", CL, features=("android-asset-validation",), bounds="host 'localhost', RP ID absent or 'localhost', https/http, flag"),
          H("c01_is_valid_rp_id", CL, features=("android-asset-validation",), bounds="RP ID <= 5 bytes over {a,b,c,.}, flag"),
@@ -397,3 +399,51 @@ PROPS["C17"]["trusted"] = E2_TRUST
 PROPS["C17"]["functions"] += ["E2: <Authenticator as U2fApi>::{register, authenticate}::{closure#0} (MIR)"]
 PROPS["C17"]["technique"] = "Kani/CBMC bounded model checking (encodings, frame parser) + symbolic path execution of rustc MIR with z3 (U2F register/authenticate control and data flow)"
 PROPS["C17"]["outside"] = ["every signature clause (P-256)", "key handles longer than 8 bytes in the parser harness", "the bytes of the signature targets"]
+
+prop("C10",
+     title="Public-suffix lookups agree with the shipped list under the PSL algorithm",
+     harnesses=[
+         H("c10_table_node_fields_in_bounds", PS, bounds="every node index of the shipped table (symbolic index into NODES)"),
+         H("c10_table_children_ranges", PS, bounds="every children index of the shipped table"),
+         H("c10_table_text_is_ascii", PS, bounds="every byte offset of TEXT"),
+         H("c10_node_label_no_panic", PS, bounds="every node index, real node_label"),
+         H("c10_table_twin", PS, twin=True, bounds="every node index"),
+         H("c10_syn_two_labels", PS, bounds="synthetic table {c, b.c, *.d, !a.d}; names L.L with letters over {a,b,c,d,x}"),
+         H("c10_syn_three_labels", PS, bounds="synthetic table; names L.L.L"),
+         H("c10_syn_four_labels", PS, tier="thorough", bounds="synthetic table; names L.L.L.L"),
+     ],
+     functions=["ListProvider::<T>::{public_suffix, find, node_label}", "<ListProvider<T> as EffectiveTLDProvider>::effective_tld_plus_one",
+                "the generated constants TLDList::{NODES, CHILDREN, TEXT, NUM_TLD}"],
+     stubs=[],
+     explanation="(b) well-formedness of the shipped table as one inductive step of 'no lookup can index out of bounds' (symbolic node / children / text "
+                 "index into the real constants); (a) the real generic lookup code instantiated with a 4-rule synthetic table (normal, longer, wildcard, "
+                 "exception) against a reference PSL matcher on shaped names",
+     outside=["rule-by-rule agreement of the 9.8k-rule compiled table with public_suffix_list.dat: a finite comparison of concrete lookups, a solver adds nothing "
+              "to it and symbolic strings over the 30 kB TEXT constant are out of reach - NOT decided; a bit flip that keeps the table well-formed is not detected",
+              "free-form strings (empty labels, leading/trailing dots), Unicode input, names longer than four labels", "sortedness of sibling labels"],
+     level_text="PARTIAL claim: table well-formedness and the lookup algorithm on a synthetic table; agreement of the shipped table's contents with the .dat file is not decided.",
+     )
+
+SM = "utils::serde::verif_proofs"
+BM = "utils::bytes::verif_proofs"
+prop("C14",
+     title="WebAuthn JSON parses leniently, re-parses when emitted, client data keeps order",
+     harnesses=[
+         H("c14_string_or_num_u32_integer_presentations", T, module=SM, bounds="all u32 values as u16/u32/u64/i64; all u64 > u32::MAX and all negative i64 rejected"),
+         H("c14_string_or_num_integral_floats", T, module=SM, bounds="all integral floats k, 0 < |k| <= 70000, as f64 and f32, into i64 (algorithm ids) and u32 (timeouts)"),
+         H("c14_string_or_num_twin", T, module=SM, twin=True, bounds="|k| <= 300"),
+     ],
+     functions=["StringOrNum::<T>::{visit_u8..visit_u64, visit_i8..visit_i64, visit_f32, visit_f64} for T = u32, i64"],
+     stubs=[],
+     explanation="equal numbers presented as integers of any width or as integral floats visit to the same value, out-of-range ones are rejected",
+     outside=["serde_json parsing itself, unknown members / enumeration strings, numeric strings (str::parse), client-data member order, re-parsing of emitted credentials",
+              "base64 / base64url presentations: data-encoding builds its 256-entry tables at run time (Encoding::specification / Specification::encoding); "
+              "CBMC does not finish on them even for one-byte inputs (measured, unwind 260, 300 s)"],
+     level_text="PARTIAL claim: the number-presentation kernel only.",
+     )
+PROPS["C15"]["harnesses"] += [
+    H("c15_bytes_seq_size_hint_not_trusted", T, module=BM, bounds="Bytes visitor: 3 elements behind every announced length (None or any usize)"),
+    H("c15_bytes_seq_twin", T, module=BM, twin=True, bounds="announced length 3"),
+    H("c15_opt_vec_size_hint_not_trusted", T, module=SM, bounds="ignore_unknown_opt_vec: 3 elements behind every announced length"),
+]
+PROPS["C15"]["functions"] += ["<Bytes as Deserialize>::deserialize (visit_seq)", "utils::serde::ignore_unknown_opt_vec"]
